@@ -44,7 +44,7 @@ CHECKS = {
     },
     "C03": {
         "level": "exploration",
-        "tests": [{"name": "TestC03", "quick": 4000, "thorough": 768000}, {"name": "TestC03Blocks", "quick": 60, "thorough": 5760, "min_per_shard": 20}, {"name": "TestC03Regress", "quick": 0}],
+        "tests": [{"name": "TestC03", "quick": 4000, "thorough": 768000}, {"name": "TestC03Blocks", "quick": 60, "thorough": 5760, "min_per_shard": 20}, {"name": "TestC03Wide", "quick": 12, "thorough": 960, "min_per_shard": 6}, {"name": "TestC03Regress", "quick": 0}],
         "assumptions": COMMON_ASSUMPTIONS,
     },
     "C04": {
@@ -86,7 +86,7 @@ CHECKS = {
     },
     "C17": {
         "level": "exploration",
-        "tests": [{"name": "TestC17Small", "quick": 1200, "thorough": 230400}, {"name": "TestC17Wide", "quick": 40, "thorough": 3840, "min_per_shard": 8}],
+        "tests": [{"name": "TestC17Small", "quick": 1200, "thorough": 230400}, {"name": "TestC17Wide", "quick": 60, "thorough": 3840, "min_per_shard": 8}],
         "assumptions": [COMMON_ASSUMPTIONS[0], COMMON_ASSUMPTIONS[2], "metamorphic: no reference model is involved, only observational equality of two merge results"],
     },
     "C18": {
@@ -96,7 +96,7 @@ CHECKS = {
     },
     "C07": {
         "level": "exploration",
-        "tests": [{"name": "TestC07Small", "quick": 3000, "thorough": 576000}, {"name": "TestC07Wide", "quick": 250, "thorough": 28800}, {"name": "TestC07Mid", "quick": 1000, "thorough": 192000}, {"name": "TestC07Huge", "quick": 6, "thorough": 480, "min_per_shard": 3}],
+        "tests": [{"name": "TestC07Small", "quick": 3000, "thorough": 576000}, {"name": "TestC07Wide", "quick": 400, "thorough": 28800}, {"name": "TestC07Mid", "quick": 1000, "thorough": 192000}, {"name": "TestC07Huge", "quick": 6, "thorough": 480, "min_per_shard": 3}],
         "assumptions": COMMON_ASSUMPTIONS + ["document numbers passed to VisitDocumentValues are < Count()"],
     },
     "C12": {
@@ -120,7 +120,7 @@ CHECKS = {
     "C19": {
         "level": "fault_enumeration",
         "tests": [{"name": "TestC19Small", "quick": 160, "thorough": 11520, "min_per_shard": 20}, {"name": "TestC19Blocks", "quick": 10, "thorough": 960, "min_per_shard": 5}, {"name": "TestC19Wide", "quick": 12, "thorough": 480, "min_per_shard": 4},
-                  {"name": "TestC19Regress", "quick": 0}, {"name": "TestC19RegressRetry", "quick": 0}],
+                  {"name": "TestC19Regress", "quick": 0}, {"name": "TestC19RegressRetry", "quick": 0}, {"name": "TestC19RegressDocValueHeader", "quick": 0}],
         "assumptions": ["storage faults are injected by swapping the unexported io.ReaderAt inside segment.Data (reflect+unsafe, self-tested at start-up) before ice.Load; every ReadAt from index k on fails",
                         "faults during ice.Load itself are not injected (Load is not a read call on a segment)",
                         "a call that does not return within 30 s is a violation only when its goroutine is blocked in sync.(*Mutex).Lock under an ice frame; anything else is reported as inconclusive",
